@@ -1,13 +1,13 @@
 //@ kani xargs_enum
 //@ append src/xargs/mod.rs
 //@ module verif_enum_xargs
-//@ harness e_ws_reader kind=enum props=C05 thorough_bound=<<every input of 0..=5 symbols over {a, blank, newline, ', ", backslash, e-acute (2 bytes)} x every way of cutting it into read() chunks>> bound=<<every input of 0..=4 symbols over {a, blank, newline, ', ", backslash, e-acute and a-grave (2 bytes each; 0xA0 is the second byte of a-grave), vertical tab} x every way of cutting it into read() chunks>> label=<<WhitespaceDelimitedArgumentReader yields exactly the arguments of the statement's tokenizer (unquoted blanks/newlines split, quotes literal, backslash quotes one byte, '' is an empty argument, unterminated quote is an error), each marked as ending a line iff a newline terminated it, whatever the read() chunking>>
-//@ harness e_byte_reader kind=enum props=C05,C07 thorough_bound=<<every input of 0..=5 symbols over {a, blank, newline, ', backslash, NUL, e-acute (2 bytes)} x delimiter NUL or newline x every way of cutting it into read() chunks>> bound=<<every input of 0..=4 symbols over {a, blank, newline, ', backslash, NUL, e-acute (2 bytes)} x delimiter NUL or newline x every way of cutting it into read() chunks>> label=<<ByteDelimitedArgumentReader yields exactly the non-empty delimiter-separated fields, byte for byte (no quote processing, multi-byte characters intact across chunk edges), in order, then None>>
+//@ harness e_ws_reader kind=enum props=C05 thorough_bound=<<every input of 0..=5 symbols over {a, blank, newline, ', ", backslash, e-acute (2 bytes)} x every way of cutting it into read() chunks>> bound=<<every input of 0..=4 symbols over {a, blank, newline, ', ", backslash, e-acute and a-grave (2 bytes each; 0xA0 is the second byte of a-grave), vertical tab, the invalid UTF-8 byte 0xFF} x every way of cutting it into read() chunks>> label=<<WhitespaceDelimitedArgumentReader yields exactly the arguments of the statement's tokenizer (unquoted blanks/newlines split, quotes literal, backslash quotes one byte, '' is an empty argument, unterminated quote is an error), each marked as ending a line iff a newline terminated it, whatever the read() chunking>>
+//@ harness e_byte_reader kind=enum props=C05,C07 thorough_bound=<<every input of 0..=5 symbols over {a, blank, newline, ', backslash, NUL, e-acute (2 bytes)} x delimiter NUL or newline x every way of cutting it into read() chunks>> bound=<<every input of 0..=4 symbols over {a, blank, newline, ', backslash, NUL, e-acute (2 bytes), the invalid UTF-8 byte 0xFF} x delimiter NUL or newline x every way of cutting it into read() chunks>> label=<<ByteDelimitedArgumentReader yields exactly the non-empty delimiter-separated fields, byte for byte (no quote processing, multi-byte characters intact across chunk edges), in order, then None>>
 //@ harness e_byte_reader_long kind=enum props=C05,C07,C20 bound=<<inputs of 1..=3 fields over {a, a field of 140000 bytes, a field of 20000 bytes, empty} separated by NUL, with and without a final NUL, read through the reader's own buffering>> label=<<a field reaches the command whole however long it is: ByteDelimitedArgumentReader never splits, truncates or merges fields>>
 //@ harness e_system_budget kind=enum props=C06,C04 bound=<<environments of 0..=3 variables whose names and values have 0, 1 or 5 bytes (also multi-byte characters)>> label=<<the system limiter's budget is ARG_MAX - 2048 - the bytes execve charges for the environment: every NAME=value string with its terminating NUL>>
 //@ harness e_null_items kind=enum props=C07,C20 bound=<<two items over {a, ' d', 'e ', f<newline>g, -h, 'q' in quotes, tab-led} separated by NUL x plain xargs -0 CMD or xargs -0 -I{} CMD {}; real processes>> label=<<xargs -0 hands every NUL-terminated item to the command as exactly one unmodified argument (leading and trailing blanks, newlines and quotes included), with or without -I>>
 //@ harness e_delimiter kind=enum props=C05 bound=<<every -d operand of 1..=4 symbols over {backslash, 0, 1, 4, 7, 8, x, a, n, t, comma, e-acute}>> label=<<a delimiter operand is rejected or denotes exactly one byte: a single byte stands for itself, \\a \\b \\f \\n \\r \\t \\v \\\\ \\0 for their C meaning, \\xHH for that hex value, \\0ooo (and \\ooo if accepted at all) for that octal value; nothing else is accepted>>
-//@ harness e_batching kind=enum props=C04 thorough_bound=<<inputs of 0..=4 arguments, otherwise as quick>> bound=<<inputs of 0..=2 arguments of 1 or 3 bytes, each followed by a blank, a newline or blank+newline x (-n 1|2, -L 1|2 or neither) x (-s absent, or room for 3, 4 or 8 more bytes than the command itself) x -x on/off; -r on/off for empty input; real processes recording their argv>> label=<<the appended arguments of successive invocations concatenate to the input sequence, every invocation starts with the unchanged command and initial arguments and respects -n, -L (a line ending in a blank continues) and -s (every argument plus one terminator, command included) simultaneously, is maximal, empty input runs once without -r and never with it, an argument that cannot fit alone (or any -s overflow under -x with -n/-L) ends the run with exit status 1>>
+//@ harness e_batching kind=enum props=C04,C19 thorough_bound=<<inputs of 0..=4 arguments, otherwise as quick>> bound=<<inputs of 0..=2 arguments of 1 or 3 bytes, each followed by a blank, a newline or blank+newline x (-n 1|2, -L 1|2 or neither) x (-s absent, or room for 3, 4 or 8 more bytes than the command itself) x -x on/off; -r on/off for empty input; real processes recording their argv>> label=<<the appended arguments of successive invocations concatenate to the input sequence, every invocation starts with the unchanged command and initial arguments and respects -n, -L (a line ending in a blank continues) and -s (every argument plus one terminator, command included) simultaneously, is maximal, empty input runs once without -r and never with it, an argument that cannot fit alone (or any -s overflow under -x with -n/-L) ends the run with exit status 1>>
 //@ harness e_mode_select kind=enum props=C20 bound=<<every order of every choice of (-I{} or bare -i or neither) x (-n1, -n2 or neither) x (-L1 or not) x input empty or "a b / c", real processes recording their argv>> label=<<when -I/-i, -n and -L are combined the option given last decides the mode (-I with -n 1 and no -L is replace mode in either order); replace mode runs once per line with the whole line substituted and nothing appended and runs nothing for empty input; the other modes append arguments and run once for empty input>>
 //@ harness e_exit_status kind=enum props=C19 thorough_bound=<<every sequence of 0..=4 child outcomes over {exit 0, exit 3, exit 125, exit 255, killed by SIGKILL}, one invocation per input item, real processes>> bound=<<every sequence of 0..=3 child outcomes over {exit 0, exit 3, exit 125, exit 255, killed by SIGKILL}, one invocation per input item (xargs -n1 -a FILE sh -c ...), and for empty input the single argument-less run exiting 0 or 3; real processes>> label=<<xargs_main returns 0 iff all exited 0, 123 when some exited 1..125 and all input was processed, 124 at once after an exit 255, 125 at once after a death by signal; no invocation runs after the stopping one>>
 //@ harness e_cannot_run kind=enum props=C19 bound=<<commands: missing, file without execute permission, directory, executable file that is no program (ENOEXEC), dangling path through a non-directory (ENOTDIR)>> label=<<a command that cannot be found gives 127, one that exists but cannot be executed gives 126, whatever the errno>>
@@ -64,7 +64,7 @@ mod verif_enum_xargs {
         out
     }
     fn ws_body() {
-        let data = stream(&[b"a", b" ", b"\n", b"'", b"\"", b"\\", "\u{e9}".as_bytes(), "\u{e0}".as_bytes(), b"\x0b"], if deep() { 5 } else { 4 });
+        let data = stream(&[b"a", b" ", b"\n", b"'", b"\"", b"\\", "\u{e9}".as_bytes(), "\u{e0}".as_bytes(), b"\x0b", b"\xff"], if deep() { 5 } else { 4 });
         let c = cuts(data.len());
         let want = ref_tokens(&data);
         let mut rd = WhitespaceDelimitedArgumentReader::new(Chunky { data: data.clone(), pos: 0, cuts: c.clone() });
@@ -83,7 +83,7 @@ mod verif_enum_xargs {
     #[test] fn e_ws_reader() { kani::explore(ws_body) }
 
     fn byte_body() {
-        let data = stream(&[b"a", b" ", b"\n", b"'", b"\\", b"\0", "\u{e9}".as_bytes()], if deep() { 5 } else { 4 });
+        let data = stream(&[b"a", b" ", b"\n", b"'", b"\\", b"\0", "\u{e9}".as_bytes(), b"\xff"], if deep() { 5 } else { 4 });
         let d = [0u8, b'\n'][pick(2)];
         let c = cuts(data.len());
         let want: Vec<Vec<u8>> = data.split(|&b| b == d).filter(|f| !f.is_empty()).map(|f| f.to_vec()).collect();
